@@ -1,10 +1,73 @@
 (* C11 — handler error policy: retry delays, permanence, retries/timeout limits.
-   Only statements here; proofs in Proofs/Outcome.v.  Models: Model/Outcome.v (execute_handler_once,
-   HandlerState algebra), Model/Attempts.v (generic driver LTS, run_activity/_daemon/_timer/persisted).
-   Times are integer milliseconds; [exec e c retries rt_call rt_end r]: the strict checks read the runtime
-   at the call, the look-ahead checks at the moment the handler raised. *)
+   Only statements here (`exact <lemma>`); proofs in Proofs/Outcome.v, OutcomeLive.v, AttemptsApply.v, AttemptsBatch.v.
+   Models (hand-written, tied to /repo on every run by harness/kv/props/c11.py + c11_loop.py):
+     Model/Outcome.v        execute_handler_once (strict checks, classification, look-ahead), HandlerState algebra,
+                            storage record, State.done/delays/delay, aiotime.sleep
+     Model/Attempts.v       generic driver LTS (Tick/Reset labels, ANY tick times), run_activity/_daemon/_timer loops,
+                            the persisted driver (state re-read from the stored record each cycle, restarts)
+     Model/AttemptsApply.v  application.apply (patch -> sleep -> touch) and the closed loop it forms with
+                            process_changing_cause when nobody else touches the object
+     Model/AttemptsBatch.v  several handlers per execute_handlers_once batch under ANY lifecycle, the three
+                            lifecycles of lifecycles.py, run_activity over several handlers, subhandling.execute's tail
+   Times are integer milliseconds. [exec e c retries rt_call rt_end r]: the strict checks read the runtime at the
+   call, the look-ahead checks at the moment the handler raised.
+
+   CLAUSE TABLE (statement of C11 in properties.jsonl; quantifier: every errors mode, every retries/timeout/backoff
+   setting, every script of raised kinds and delays, every restart position — all theorems quantify over these
+   unboundedly; "generic" = for every label list of the generic driver, i.e. every sleeping policy, every event in
+   between, every position in a batch):
+   +----+----------------------------------------------------------+------------------------------------------------------+
+   | #  | clause                                                   | stated in full by                                    |
+   +----+----------------------------------------------------------+------------------------------------------------------+
+   | 1  | temporary error / arbitrary error in default mode        | one invocation: C11_temp_retried_after_delay,        |
+   |    | "is retried" (liveness)                                  | C11_arbitrary_by_mode (state stays unfinished and is |
+   |    |                                                          | awakened from end+delay on). Drivers (the next       |
+   |    |                                                          | iteration happens at exactly end + max 0 delay and   |
+   |    |                                                          | executes the handler): C11_activity_retried,         |
+   |    |                                                          | C11_daemon_retried (stopper not set before),         |
+   |    |                                                          | C11_timer_retried, C11_change_handler_retried        |
+   |    |                                                          | (closed loop through application.apply, no foreign   |
+   |    |                                                          | events, keep-alive cap incl.), C11_apply_wakes,      |
+   |    |                                                          | C11_parent_follows_children (parent of sub-handlers).|
+   |    |                                                          | With foreign events / restarts during the wait the   |
+   |    |                                                          | liveness of the whole operator is C03's; here: safety|
+   | 2  | "never sooner than the requested delay or backoff"       | C11_delay_respected (generic), C11_apply_touch_after_|
+   |    |                                                          | delay, exactness in the *_retried theorems           |
+   | 3  | permanent error / arbitrary in permanent mode "ends it   | C11_perm_final, C11_arbitrary_by_mode,               |
+   |    | without retry"                                           | C11_failed_for_good, C11_failed_forever (generic)    |
+   | 4  | "in ignored mode an arbitrary error counts as done"      | C11_arbitrary_by_mode (success recorded),            |
+   |    |                                                          | C11_failed_for_good (nothing entered afterwards)     |
+   | 5  | "with retries=N invoked at most N times"                 | C11_retries_bound, C11_retry_counts_attempts,        |
+   |    |                                                          | C11_every_lifetime (generic)                         |
+   | 6  | "with timeout=T no attempt starts later than T after the | C11_timeout_bound (generic; strict: < T)             |
+   |    | first one"                                               |                                                      |
+   | 7  | "after which it is recorded as failed for good"          | C11_limits_fail_for_good (the skipped call records   |
+   |    |                                                          | the failure), look-ahead cases: C11_arbitrary_by_mode|
+   |    |                                                          | C11_temp_at_limit_fails; C11_failed_forever          |
+   | 8a | "... for change handlers"                                | C11_across_restarts (persisted driver, any event     |
+   |    |                                                          | times), C11_change_handler_retried                   |
+   | 8b | "sub-handlers"                                           | C11_batch_lifetimes (each handler of a batch, under  |
+   |    |                                                          | EVERY lifecycle, is a generic run),                  |
+   |    |                                                          | C11_parent_follows_children                          |
+   | 8c | "daemons"                                                | C11_daemon_driver, C11_daemon_retried                |
+   | 8d | "timers"                                                 | C11_timer_whole_life, C11_reset_only_after_success,  |
+   |    |                                                          | C11_timer_retried, C11_timer_after_success (F9 fixed |
+   |    |                                                          | by e01f313: no _refuted/_partial pair left)          |
+   | 8e | "activities"                                             | C11_activity_driver, C11_activity_retried,           |
+   |    |                                                          | C11_multi_activity_driver, C11_lifecycles_plan_ok    |
+   | 9  | "for change handlers also across operator restarts"      | C11_across_restarts (restarts at ANY positions),     |
+   |    |                                                          | C11_restarts_invisible, C11_storage_roundtrip        |
+   +----+----------------------------------------------------------+------------------------------------------------------+
+   Monitored only (no theorem): the verdict of run_activity (ActivityError iff a handler failed; D:activity compares
+   it with the model's final state), "no entry after the stopper is set" (C09's clause), busy loops (not-finished).
+   Not covered: the default errors mode per handler KIND is an argument (e_errors) — that on.event/index handlers pass
+   IGNORED and webhooks PERMANENT is C15/C18 territory; timers with idle=, initial_delay (C09/C10); sync handlers in
+   thread pools; BaseException other than cancellation; liveness with foreign events or restarts DURING the wait
+   (the per-object level-triggered convergence is C03); the ROk branch of [sub_raise] is tied only through the
+   closing of the handling cycle. *)
 From Coq Require Import ZArith List Bool.
-From KV Require Import Model.Outcome Model.Attempts Proofs.Outcome.
+From KV Require Import Model.Outcome Model.Attempts Model.AttemptsApply Model.AttemptsBatch.
+From KV Require Import Proofs.Outcome Proofs.OutcomeLive Proofs.AttemptsApply Proofs.AttemptsBatch.
 Import ListNotations.
 Open Scope Z_scope.
 
@@ -37,6 +100,15 @@ Theorem C11_arbitrary_by_mode : forall e c n rc rx te s, strict c n rc = None ->
      s_failure s' = true /\ s_success s' = false).
 Proof. exact thm_arbitrary_by_mode. Qed.
 Print Assumptions C11_arbitrary_by_mode.
+
+(* a temporary error AT a limit (the retry would start at/after the timeout, or would be the (N+1)-th attempt) is
+   recorded as failed for good at once *)
+Theorem C11_temp_at_limit_fails : forall e c n rc rx d, strict c n rc = None ->
+  (reaches (rx + or0 d) (c_timeout c) = true -> fst (exec e c n rc rx (RTemp d)) = final_with XTimeout) /\
+  (reaches (rx + or0 d) (c_timeout c) = false -> reaches (n + 1) (c_retries c) = true ->
+     fst (exec e c n rc rx (RTemp d)) = final_with XRetries).
+Proof. exact temp_limits. Qed.
+Print Assumptions C11_temp_at_limit_fails.
 
 (* a permanent error ends it without retry: failed, no delay, never awakened again *)
 Theorem C11_perm_final : forall e c n rc rx r te s,
@@ -164,3 +236,122 @@ Print Assumptions C11_restarts_invisible.
 Theorem C11_storage_roundtrip : forall now s, s_active s = true -> state_for now (Some (for_storage s)) = s.
 Proof. exact state_for_roundtrip. Qed.
 Print Assumptions C11_storage_roundtrip.
+
+(* ---- "is retried": the drivers wake up at exactly the first instant the handler is awakened again ---- *)
+
+(* run_activity: after an attempt that did not end the handler, the next iteration is at end + max 0 requested,
+   the handler is awakened then and at no instant before, and that iteration executes it (it is the next label) *)
+Theorem C11_activity_retried : forall f e c now hs sc, s_active hs = true -> awakened now hs = true ->
+  let it := iterate e c now hs sc in
+  finished (it_hs it) = false ->
+  let now' := it_end it + Z.max 0 (requested e c (fst (next_act sc))) in
+  awakened now' (it_hs it) = true /\
+  (forall t, it_end it <= t -> t < now' -> awakened t (it_hs it) = false) /\
+  exists rest, act_trace (S (S f)) e c now hs sc
+               = it_lab it :: it_lab (iterate e c now' (it_hs it) (tl sc)) :: rest.
+Proof. exact activity_retried. Qed.
+Print Assumptions C11_activity_retried.
+
+Theorem C11_daemon_retried : forall f e c stop now hs sc, s_active hs = true -> awakened now hs = true ->
+  let it := iterate e c now hs sc in
+  finished (it_hs it) = false ->
+  let now' := it_end it + Z.max 0 (requested e c (fst (next_act sc))) in
+  not_stopped_before stop now' -> now <= now' ->
+  awakened now' (it_hs it) = true /\
+  (forall t, it_end it <= t -> t < now' -> awakened t (it_hs it) = false) /\
+  exists rest, dmn_trace (S (S f)) e c stop now hs sc
+               = it_lab it :: it_lab (iterate e c now' (it_hs it) (tl sc)) :: rest.
+Proof. exact daemon_retried. Qed.
+Print Assumptions C11_daemon_retried.
+
+Theorem C11_timer_retried : forall f e c iv sharp stop now hs sc, s_active hs = true -> awakened now hs = true ->
+  let it := iterate e c now hs sc in
+  finished (it_hs it) = false ->
+  let now' := it_end it + Z.max 0 (requested e c (fst (next_act sc))) in
+  not_stopped_before stop now' -> now <= now' ->
+  awakened now' (it_hs it) = true /\
+  (forall t, it_end it <= t -> t < now' -> awakened t (it_hs it) = false) /\
+  exists rest, tmr_trace (S (S f)) e c iv sharp stop now hs sc
+               = it_lab it :: it_lab (iterate e c now' (it_hs it) (tl sc)) :: rest.
+Proof. exact timer_retried. Qed.
+Print Assumptions C11_timer_retried.
+
+(* after a SUCCESS the timer starts from scratch one interval (or the rest of the sharp grid) later *)
+Theorem C11_timer_after_success : forall f e c iv (sharp : bool) stop now hs sc, s_active hs = true -> awakened now hs = true ->
+  0 < iv ->
+  let it := iterate e c now hs sc in
+  s_success (it_hs it) = true -> s_failure (it_hs it) = false ->
+  let now' := it_end it + (if sharp then iv - ((it_end it - now) mod iv) else iv) in
+  not_stopped_before stop now' ->
+  exists rest, tmr_trace (S (S f)) e c (Some iv) sharp stop now hs sc
+               = it_lab it :: Reset now' :: it_lab (iterate e c now' (from_scratch now') (it_sc it)) :: rest.
+Proof. exact timer_after_success. Qed.
+Print Assumptions C11_timer_after_success.
+
+(* application.apply: with a delay pending and no new change during the sleep the object IS woken up (by the patch
+   itself or by a touch) — whatever the patch, whatever the delays *)
+Theorem C11_apply_wakes : forall patch delays, delays <> [] ->
+  ap_patched (apply_plan patch delays None) || ap_touched (apply_plan patch delays None) = true.
+Proof. exact apply_wakes. Qed.
+Print Assumptions C11_apply_wakes.
+
+(* ... and a touch comes only after the whole delay (capped by the keep-alive interval), never with a pending patch *)
+Theorem C11_apply_touch_after_delay : forall patch delays wake d,
+  zmin_list delays = Some d -> ap_touched (apply_plan patch delays wake) = true ->
+  ap_slept (apply_plan patch delays wake) = Z.min (Z.max 0 d) KEEPALIVE /\
+  ap_patched (apply_plan patch delays wake) = patch /\ (patch = true -> False).
+Proof. exact apply_touch_after_delay. Qed.
+Print Assumptions C11_apply_touch_after_delay.
+
+(* change handlers, closed loop (process_changing_cause + apply, nobody else touching the object): after an attempt
+   that did not end the handler the loop makes only idle cycles, all before W = end + max 0 requested (the patch echo,
+   then one per keep-alive interval), and then a cycle at exactly W at which the handler is awakened *)
+Theorem C11_change_handler_retried : forall f e c sc now ps,
+  p_closed ps = false -> p_clock ps <= now ->
+  let hs := state_for now (p_stored ps) in
+  awakened now hs = true ->
+  let it := iterate e c now hs sc in
+  finished (it_hs it) = false ->
+  let W := it_end it + Z.max 0 (requested e c (fst (next_act sc))) in
+  exists k idle ps',
+    pcl_trace (S (k + S f)) e c now ps sc
+      = plabel_of (it_lab it) :: idle ++ pcl_trace (S f) e c W ps' (tl sc) /\
+    Forall (idle_before W) idle /\
+    live ps' (it_hs it) /\ p_clock ps' <= W /\ awakened W (state_for W (p_stored ps')) = true.
+Proof. exact change_handler_retried. Qed.
+Print Assumptions C11_change_handler_retried.
+
+(* ---- several handlers per batch: sub-handlers, activities with several handlers, any lifecycle ---- *)
+
+(* for EVERY sequence of batches whose plans pick distinct awakened handlers (every lifecycle, also randomized,
+   shuffled, user-written): each handler's entries obey the whole policy; settings are never mixed up *)
+Theorem C11_batch_lifetimes : forall e t0 hs tr s, brun e (binit t0 hs) tr = Some s ->
+  Forall (fun sl => lifetime_ok e (b_cfg sl) (b_log sl)) (bs_slots s) /\
+  map b_cfg (bs_slots s) = map fst hs.
+Proof. exact batch_lifetimes. Qed.
+Print Assumptions C11_batch_lifetimes.
+
+(* all_at_once, one_by_one, asap pick distinct handlers among the awakened ones *)
+Theorem C11_lifecycles_plan_ok : forall lc ta slots, plan_ok ta slots (choose lc slots (todo ta slots)) = true.
+Proof. exact choose_ok. Qed.
+Print Assumptions C11_lifecycles_plan_ok.
+
+(* run_activity over several handlers under these lifecycles: an accepted run of the batch LTS *)
+Theorem C11_multi_activity_driver : forall fuel e lc t0 hs,
+  exists s, brun e (binit t0 hs) (mact_trace fuel e lc t0 (bs_slots (binit t0 hs))) = Some s /\
+            Forall (fun sl => lifetime_ok e (b_cfg sl) (b_log sl)) (bs_slots s) /\
+            map b_cfg (bs_slots s) = map fst hs.
+Proof. exact multi_activity_ok. Qed.
+Print Assumptions C11_multi_activity_driver.
+
+(* subhandling.execute: the parent returns once all sub-handlers are done; otherwise it stays unfinished, the
+   re-entry is counted, and it is awakened again EXACTLY when one of its pending sub-handlers is *)
+Theorem C11_parent_follows_children : forall e c n rx te children parent,
+  (st_done children = true -> sub_raise te children = ROk) /\
+  (st_done children = false ->
+     let parent' := with_outcome te parent (classify e c n rx (sub_raise te children)) in
+     finished parent' = false /\ s_retries parent' = s_retries parent + 1 /\
+     forall t, te <= t ->
+       (awakened t parent' = true <-> exists ch, In ch children /\ s_active ch = true /\ awakened t ch = true)).
+Proof. exact parent_follows_children. Qed.
+Print Assumptions C11_parent_follows_children.
